@@ -221,6 +221,17 @@ int main()
           std::memcpy(&p, &u, 8);
           out += vita::random::boolean(p) ? "b:1" : "b:0";
         }
+        else if (f[0] == "d" && f.size() == 2)
+        {
+          std::vector<unsigned> ws;
+          std::istringstream ss(f[1]);
+          std::string x;
+          while (std::getline(ss, x, ',')) ws.push_back(static_cast<unsigned>(std::stoul(x)));
+          std::discrete_distribution<unsigned> dd(ws.begin(), ws.end());   // as population.tcc:pickup builds it
+          char buf[32];
+          std::snprintf(buf, sizeof(buf), "d:%x", dd(vita::random::engine));
+          out += buf;
+        }
         else if (f[0] == "s")
         {
           std::discrete_distribution<unsigned> dd({3.0, 1.0, 2.0});
